@@ -660,7 +660,40 @@ impl TypeVar {
         self.0.with_data(|d| d.missing_info = true);
     }
 
+    // Occurs check: true if `self` is a component (argument, output, element, parameter ...) of a type of `other`.
+    // Unifying the two would create an infinite type, which every traversal of types would follow forever.
+    fn occurs_in(&self, other: &TypeVar) -> bool {
+        fn walk(needle: &TypeVar, ty: &TypeVar, visited: &mut HashSet<TypeVarDataId>) -> bool {
+            for potential_ty in ty.clone_types().into_values() {
+                let children = match potential_ty {
+                    PotentialType::Function(_, mut args, out) => {
+                        args.push(out);
+                        args
+                    }
+                    PotentialType::Tuple(_, elems) => elems,
+                    PotentialType::Nominal(_, _, params) => params,
+                    _ => vec![],
+                };
+                for child in children {
+                    if child.0.equiv(&needle.0) {
+                        return true;
+                    }
+                    let id = child.0.with_data(|d| d.id);
+                    if visited.insert(id) && walk(needle, &child, visited) {
+                        return true;
+                    }
+                }
+            }
+            false
+        }
+        walk(self, other, &mut HashSet::default())
+    }
+
     fn merge(tyvar1: &TypeVar, tyvar2: &TypeVar) {
+        // never build an infinite type; constrain_because() reports it
+        if tyvar1.occurs_in(tyvar2) || tyvar2.occurs_in(tyvar1) {
+            return;
+        }
         let mut tyvar1 = tyvar1.clone();
         let mut tyvar2 = tyvar2.clone();
         tyvar1.0.union_with(&mut tyvar2.0, TypeVarData::merge_data);
@@ -1456,6 +1489,35 @@ pub(crate) fn constrain_because(
     tyvar2: &TypeVar,
     constraint_reason: ConstraintReason,
 ) {
+    // constraining a type to itself changes nothing
+    if tyvar1.0.equiv(&tyvar2.0) {
+        return;
+    }
+    // occurs check: `fn f() { f }` or `fn f(x) { x(x) }` would need a type that contains itself
+    if tyvar1.occurs_in(tyvar2) || tyvar2.occurs_in(tyvar1) {
+        let msg = "Infinite type: this expression would need a type that contains itself".to_string();
+        let node = [tyvar1, tyvar2].iter().find_map(|tyvar| {
+            tyvar.clone_types().into_values().find_map(|ty| {
+                match ty.reasons().first() {
+                    Reason::Node(node)
+                    | Reason::Annotation(node)
+                    | Reason::Literal(node)
+                    | Reason::PrefixOp(node)
+                    | Reason::BinopLeft(node)
+                    | Reason::BinopRight(node)
+                    | Reason::BinopOut(node)
+                    | Reason::VariantNoData(node)
+                    | Reason::IfWithoutElse(node) => Some(node),
+                    Reason::Intrinsic(_) => None,
+                }
+            })
+        });
+        ctx.errors.push(match node {
+            Some(node) => Error::GenericWithNode { msg, node },
+            None => Error::Generic(msg),
+        });
+        return;
+    }
     match (tyvar1.is_locked(), tyvar2.is_locked()) {
         // Since both TypeVars are already locked, an error is logged if their data do not match
         (true, true) => {
